@@ -506,6 +506,22 @@ func runC08(c *Ctx) {
 	jsons = append(jsons, strings.Repeat("[", 3000)+strings.Repeat("]", 3000), strings.Repeat(`{"a":`, 3000)+"1"+strings.Repeat("}", 3000), `{"a":["00",1]}`, `{"a":[{"b":1},"00"]}`, `{"a":[["00"],"00"]}`, ``, `{`, `[1,`)
 	for _, j := range jsons {
 		call("JsonpbUnmarshal", []byte(j))
+	}
+	// TLC-generated JSON trees (Gen_JsonWalk: every tree of depth <= 2 over six leaf kinds), as they stand and at the
+	// positions of a block message the unmarshaller knows
+	if path := c.Arg["json"]; path != "" {
+		trees := readCases(path)
+		step := len(trees)/c.Pick(1500, 12000) + 1
+		for i := int(c.Seed) % step; i < len(trees); i += step {
+			txt, err := json.Marshal(treeToGo(trees[i]["t"]))
+			if err != nil {
+				continue
+			}
+			call("JsonpbUnmarshal", txt)
+			if i%3 == 0 {
+				call("JsonpbUnmarshal", []byte(`{"block":{"info":`+string(txt)+`,"transaction_data":`+string(txt)+`}}`))
+			}
+		}
 	} // blocks scanned against a filter: dependency chains and DAGs whose every transaction is relevant, children first
 	// (the scan re-checks dependants; the work must stay polynomial).  Last, because a scan that does not return keeps
 	// a goroutine busy for the rest of the run.
